@@ -20,7 +20,7 @@
 (* Direction A turns every emitted case into >= 5 seeded instantiations     *)
 (* against the real ExtKeychain / proof / build / reward code.              *)
 (*                                                                         *)
-(* Four sub-models share this module; constant Part selects the one that    *)
+(* Four sub-models share this module; constant Parts selects the ones that  *)
 (* Next explores: "rewind" (Create / Craft), "algebra" (Append), "builder"   *)
 (* (Shape, incl. the two-party exchange), "wallet" (pairs of keychain        *)
 (* constructors: seed bytes of 16/32/64 bytes, mnemonic + passphrase,        *)
@@ -29,7 +29,7 @@
 EXTENDS Naturals, Integers, Sequences, FiniteSets, TLC
 
 CONSTANTS
-  Part,        \* "rewind" | "algebra" | "builder" | "wallet"
+  Parts,       \* the sub-models explored: subset of {"rewind", "algebra", "builder", "wallet"}
   Seeds,       \* wallet seeds (strings)
   Comps,       \* path component classes (strings); "c0" is the value 0 (= identifier padding)
   HardComps,   \* the classes >= 2^31 (hardened child numbers)
@@ -537,7 +537,7 @@ WalletArgs(c, path, amt, mode, fam) == [seed |-> Master(c), path |-> path, amt |
 \* two wallets: the same wallet iff the same constructor arguments; the same wallet derives the
 \* same keys / commitments and rewinds the other's outputs exactly, a different one recovers nothing
 WalletsOK ==
-  (Part = "wallet" /\ world # <<>>) =>
+  ("wallet" \in Parts /\ world # <<>> /\ "c1" \in DOMAIN world) =>
     LET c1 == world.c1
         c2 == world.c2
         same == SameWallet(c1, c2) IN
@@ -558,47 +558,47 @@ Init == world = <<>> /\ outs = {} /\ expr = <<>> /\ shape = <<>>
 \* generation in use (the remaining arguments and all later outputs are unconstrained).
 Worlds == [seed : Seeds, depth : 0..MaxDepth, fam : Fams]
 OpenWorld(w) ==
-  /\ Part = "rewind" /\ world = <<>>
+  /\ "rewind" \in Parts /\ world = <<>>
   /\ world' = w
   /\ UNCHANGED <<outs, expr, shape>>
 
 Create(a) ==
-  /\ Part = "rewind" /\ world # <<>> /\ Cardinality(outs) < MaxOuts
+  /\ "rewind" \in Parts /\ world # <<>> /\ Cardinality(outs) < MaxOuts
   /\ outs' = outs \cup {MkOut(a)}
   /\ UNCHANGED <<world, expr, shape>>
 
 AppendTerm(t) ==
-  /\ Part = "algebra" /\ Len(expr) < MaxTerms
+  /\ "algebra" \in Parts /\ Len(expr) < MaxTerms
   /\ expr' = Append(expr, t)
   /\ UNCHANGED <<world, outs, shape>>
 
 ChooseShape(sh) ==
-  /\ Part = "builder" /\ shape = <<>>
+  /\ "builder" \in Parts /\ shape = <<>> /\ world = <<>>
   /\ shape' = sh
   /\ UNCHANGED <<world, outs, expr>>
 
 OpenPair(c1, c2) ==
-  /\ Part = "wallet" /\ world = <<>>
+  /\ "wallet" \in Parts /\ world = <<>> /\ shape = <<>>
   /\ world' = [c1 |-> c1, c2 |-> c2]
   /\ UNCHANGED <<outs, expr, shape>>
 
-OpenAny == Part = "rewind" /\ world = <<>> /\ \E w \in Worlds : OpenWorld(w)
+OpenAny == "rewind" \in Parts /\ world = <<>> /\ \E w \in Worlds : OpenWorld(w)
 CreateFirst ==
-  Part = "rewind" /\ world # <<>> /\ outs = {} /\
+  "rewind" \in Parts /\ world # <<>> /\ outs = {} /\
     \E p \in [1..world.depth -> Comps], amt \in Amts, mode \in Modes, fmt \in Fmts :
       Create([seed |-> world.seed, path |-> p, amt |-> amt, mode |-> mode, fam |-> world.fam, fmt |-> fmt])
 CreateMore ==
-  Part = "rewind" /\ world # <<>> /\ outs # {} /\ Cardinality(outs) < MaxOuts /\ \E a \in Args : Create(a)
-AppendAny == Part = "algebra" /\ Len(expr) < MaxTerms /\ \E t \in Terms : AppendTerm(t)
-ShapeAny == Part = "builder" /\ shape = <<>> /\ \E sh \in Shapes \cup CbShapes : ChooseShape(sh)
-PairAny == Part = "wallet" /\ world = <<>> /\ \E c1, c2 \in Ctors : OpenPair(c1, c2)
+  "rewind" \in Parts /\ world # <<>> /\ outs # {} /\ Cardinality(outs) < MaxOuts /\ \E a \in Args : Create(a)
+AppendAny == "algebra" \in Parts /\ Len(expr) < MaxTerms /\ \E t \in Terms : AppendTerm(t)
+ShapeAny == "builder" \in Parts /\ shape = <<>> /\ world = <<>> /\ \E sh \in Shapes \cup CbShapes : ChooseShape(sh)
+PairAny == "wallet" \in Parts /\ world = <<>> /\ shape = <<>> /\ \E c1, c2 \in Ctors : OpenPair(c1, c2)
 
 Next == OpenAny \/ CreateFirst \/ CreateMore \/ AppendAny \/ ShapeAny \/ PairAny
 
 Spec == Init /\ [][Next]_vars
 
 TypeOK ==
-  /\ world = <<>> \/ (Part # "wallet" /\ world \in Worlds) \/ (Part = "wallet" /\ world \in [c1 : Ctors, c2 : Ctors])
+  /\ world = <<>> \/ ("rewind" \in Parts /\ world \in Worlds) \/ ("wallet" \in Parts /\ world \in [c1 : Ctors, c2 : Ctors])
   /\ \A o \in outs : o.args \in Args
   /\ expr \in Seq(Terms)
   /\ \/ shape = <<>>
